@@ -19,6 +19,7 @@ import (
 func init() { subcommands["c05worker"] = c05Worker }
 
 type wout struct {
+	nbegin                   int64
 	w                        *bufio.Writer
 	slow                     bool
 	evals, states, trans, nt int64
@@ -33,6 +34,9 @@ func (o *wout) fail(class string, c rt.Case, exp, got string) {
 }
 
 func (o *wout) begin(c func() rt.Case) {
+	if o.nbegin++; o.nbegin%4096 == 0 {
+		o.beat() // progress marker independent of how the work is sliced and how loaded the machine is
+	}
 	if o.slow {
 		b, _ := json.Marshal(workerMsg{Case: c()})
 		o.w.WriteString("B ")
